@@ -161,6 +161,9 @@ func (w *svcWorld) syncSDK(cl *bed.Client) (*syncResult, string, string) {
 	}
 	if out.TimedOut {
 		if out.Hang {
+			if bed.ClientSyncStuck(out.Dump) {
+				return res, "client-sync-hang", "Client.Sync() never returned: it waits for the client's sync semaphore while no sync of this process is under way that could release it\n" + clipDump(out.Dump)
+			}
 			return res, "request-hang", "Client.Sync() never returned: the server waits for a handler reply while no handler goroutine exists\n" + clipDump(out.Dump)
 		}
 		return res, "INCONCLUSIVE", "Client.Sync() did not return within the watchdog"
